@@ -321,7 +321,8 @@ fn format_line_number(
                 hyperlinks::format_osc8_file_hyperlink(absolute_path, line_number, &pad(n), config)
                     .to_string()
             }
-            None => file.to_owned(),
+            // (the absolute path is not known, e.g. the working directory has been removed)
+            None => pad(n),
         },
         (Some(n), _, _) => pad(n),
     }
